@@ -21,6 +21,7 @@ type term struct {
 	p1   int    // extract lo
 	name string // var name
 	id   int64
+	tab  []uint64 // lut: table of constants
 }
 
 var termCounter int64
@@ -143,6 +144,10 @@ func tBin(op string, a, b *term) *term {
 			return tConst(w, r)
 		}
 	}
+	if a.op == "lut" && b.isConst() && len(a.tab) <= 256 {
+		bc := b
+		return lutMap(a, w, func(v uint64) uint64 { return tBin(op, tConst(w, v), bc).val })
+	}
 	// cheap identities
 	switch op {
 	case "bvadd", "bvor", "bvxor":
@@ -216,6 +221,28 @@ func tCmp(op string, a, b *term) *term {
 		default:
 			return tFalse
 		}
+	}
+	if op == "=" && a.op == "lut" && b.op == "lut" && a.args[0].w == b.args[0].w && sameInjectiveTable(a.tab, b.tab) {
+		// equal entries of one injective table have equal indices (both reads are guarded in range)
+		return tCmp("=", a.args[0], b.args[0])
+	}
+	if a.op == "lut" && b.isConst() {
+		aw, bv := a.w, b.val
+		return lutMap(a, 0, func(v uint64) uint64 {
+			if tCmpConst(op, aw, v, bv) {
+				return 1
+			}
+			return 0
+		})
+	}
+	if b.op == "lut" && a.isConst() {
+		bw, av := b.w, a.val
+		return lutMap(b, 0, func(v uint64) uint64 {
+			if tCmpConst(op, bw, av, v) {
+				return 1
+			}
+			return 0
+		})
 	}
 	return newTerm(op, 0, a, b)
 }
@@ -331,6 +358,9 @@ func tExtract(hi, lo int, a *term) *term {
 	if a.isConst() {
 		return tConst(w, a.val>>uint(lo))
 	}
+	if a.op == "lut" {
+		return lutMap(a, w, func(v uint64) uint64 { return v >> uint(lo) })
+	}
 	// extract of zero/sign extension back to (or below) the original width
 	if (a.op == "zext" || a.op == "sext") && lo == 0 && hi < a.args[0].w {
 		return tExtract(hi, 0, a.args[0])
@@ -359,6 +389,9 @@ func tZext(n int, a *term) *term {
 	if a.isConst() {
 		return tConst(a.w+n, a.val)
 	}
+	if a.op == "lut" {
+		return lutMap(a, a.w+n, func(v uint64) uint64 { return v })
+	}
 	t := newTerm("zext", a.w+n, a)
 	t.p0 = n
 	return t
@@ -370,6 +403,10 @@ func tSext(n int, a *term) *term {
 	}
 	if a.isConst() {
 		return tConst(a.w+n, uint64(signExt(a.val, a.w)))
+	}
+	if a.op == "lut" {
+		aw := a.w
+		return lutMap(a, a.w+n, func(v uint64) uint64 { return uint64(signExt(v, aw)) })
 	}
 	t := newTerm("sext", a.w+n, a)
 	t.p0 = n
@@ -425,6 +462,8 @@ func (t *term) ref() string {
 func (t *term) body() string {
 	var sb strings.Builder
 	switch t.op {
+	case "lut":
+		return t.lutBody()
 	case "extract":
 		fmt.Fprintf(&sb, "((_ extract %d %d) %s)", t.p0, t.p1, t.args[0].ref())
 	case "zext":
@@ -458,6 +497,8 @@ func (t *term) String() string {
 		case "const", "var":
 			sb.WriteString(strings.Trim(t.ref(), "|"))
 			return
+		case "lut":
+			fmt.Fprintf(&sb, "(table%d ", len(t.tab))
 		case "extract":
 			fmt.Fprintf(&sb, "(extract[%d:%d] ", t.p0, t.p1)
 		case "zext":
@@ -499,6 +540,12 @@ func (t *term) eval(model map[string]uint64, memo map[*term]uint64) uint64 {
 		r = t.val
 	case "var":
 		r = model[t.name] & mask(max1(t.w))
+	case "lut":
+		i := a(0)
+		if i >= uint64(len(t.tab)) {
+			i = uint64(len(t.tab) - 1)
+		}
+		r = t.tab[i]
 	case "not":
 		r = 1 - a(0)
 	case "and":
@@ -687,3 +734,197 @@ func isSym(v value) bool { _, ok := v.(sym); return ok }
 type unsupported string
 
 func (u unsupported) Error() string { return "unsupported: " + string(u) }
+
+// termUB is a cheap syntactic upper bound (unsigned) of a bit-vector term.
+func termUB(t *term) uint64 {
+	return termUBd(t, 0)
+}
+
+func termUBd(t *term, d int) uint64 {
+	full := mask(max1(t.w))
+	if d > 12 {
+		return full
+	}
+	switch t.op {
+	case "const":
+		return t.val
+	case "lut":
+		m := uint64(0)
+		for _, v := range t.tab {
+			if v > m {
+				m = v
+			}
+		}
+		return m
+	case "bvand":
+		a, b := termUBd(t.args[0], d+1), termUBd(t.args[1], d+1)
+		if a < b {
+			return a
+		}
+		return b
+	case "bvurem":
+		if t.args[1].isConst() && t.args[1].val > 0 {
+			return t.args[1].val - 1
+		}
+		return termUBd(t.args[0], d+1)
+	case "bvudiv":
+		if t.args[1].isConst() && t.args[1].val > 0 {
+			return termUBd(t.args[0], d+1) / t.args[1].val
+		}
+	case "bvlshr":
+		if t.args[1].isConst() {
+			if t.args[1].val >= uint64(t.w) {
+				return 0
+			}
+			return termUBd(t.args[0], d+1) >> t.args[1].val
+		}
+	case "zext":
+		return termUBd(t.args[0], d+1)
+	case "extract":
+		if t.p1 == 0 {
+			u := termUBd(t.args[0], d+1)
+			if u < full {
+				return u
+			}
+		}
+		return full
+	case "ite":
+		a, b := termUBd(t.args[1], d+1), termUBd(t.args[2], d+1)
+		if a > b {
+			return a
+		}
+		return b
+	case "bvor", "bvxor":
+		a, b := termUBd(t.args[0], d+1), termUBd(t.args[1], d+1)
+		m := a | b
+		// round up to all-ones of the same bit length
+		n := uint64(1)
+		for n <= m && n != 0 {
+			n <<= 1
+		}
+		if n == 0 {
+			return full
+		}
+		return n - 1
+	}
+	return full
+}
+
+// ---------------------------------------------------------------- constant lookup tables
+//
+// lut(table, idx) = table[idx] for a table of constants. Keeping table reads as one node
+// lets reads of reads compose concretely (decodeMap[encodeMap[v]] folds to v) and lets
+// comparisons with constants fold without a solver call.
+
+func tLut(table []uint64, w int, idx *term) *term {
+	n := len(table)
+	if idx.isConst() {
+		i := idx.val
+		if i >= uint64(n) {
+			i = uint64(n - 1)
+		}
+		if w == 0 {
+			return tBool(table[i] != 0)
+		}
+		return tConst(w, table[i])
+	}
+	// compose with an inner table read
+	if idx.op == "lut" {
+		inner := idx.tab
+		ok := true
+		comp := make([]uint64, len(inner))
+		for i, v := range inner {
+			if v >= uint64(n) {
+				ok = false
+				break
+			}
+			comp[i] = table[v]
+		}
+		if ok {
+			return tLut(comp, w, idx.args[0])
+		}
+	}
+	// all entries equal
+	same := true
+	for _, v := range table[1:] {
+		if v != table[0] {
+			same = false
+			break
+		}
+	}
+	if same {
+		if w == 0 {
+			return tBool(table[0] != 0)
+		}
+		return tConst(w, table[0])
+	}
+	// identity table (valid under the bounds guard idx < n that precedes every read)
+	if w > 0 {
+		ident := true
+		for i, v := range table {
+			if v != uint64(i) {
+				ident = false
+				break
+			}
+		}
+		if ident && uint64(n-1) <= mask(w) {
+			switch {
+			case w == idx.w:
+				return idx
+			case w > idx.w:
+				return tZext(w-idx.w, idx)
+			default:
+				return tExtract(w-1, 0, idx)
+			}
+		}
+	}
+	t := newTerm("lut", w, idx)
+	t.tab = append([]uint64(nil), table...)
+	return t
+}
+
+// lutMap applies f to every entry of a lut node.
+func lutMap(t *term, w int, f func(uint64) uint64) *term {
+	nt := make([]uint64, len(t.tab))
+	for i, v := range t.tab {
+		nt[i] = f(v) & mask(max1(w))
+	}
+	return tLut(nt, w, t.args[0])
+}
+
+func (t *term) lutBody() string {
+	var sb strings.Builder
+	idx := t.args[0]
+	lit := func(v uint64) string {
+		if t.w == 0 {
+			if v != 0 {
+				return "true"
+			}
+			return "false"
+		}
+		return bvLit(t.w, v)
+	}
+	n := len(t.tab)
+	for i := 0; i < n-1; i++ {
+		fmt.Fprintf(&sb, "(ite (= %s %s) %s ", idx.ref(), bvLit(idx.w, uint64(i)), lit(t.tab[i]))
+	}
+	sb.WriteString(lit(t.tab[n-1]))
+	for i := 0; i < n-1; i++ {
+		sb.WriteByte(')')
+	}
+	return sb.String()
+}
+
+func sameInjectiveTable(a, b []uint64) bool {
+	if len(a) != len(b) || len(a) > 4096 {
+		return false
+	}
+	seen := make(map[uint64]bool, len(a))
+	for i := range a {
+		if a[i] != b[i] || seen[a[i]] {
+			return false
+		}
+		seen[a[i]] = true
+	}
+	return true
+}
